@@ -14,6 +14,7 @@ import (
 	"context"
 	"encoding/json"
 	"fmt"
+	"math"
 	"os"
 	"path/filepath"
 	"reflect"
@@ -22,12 +23,14 @@ import (
 	"strings"
 	"sync"
 	"testing"
+	"time"
 
 	"github.com/specterops/dawgs/cypher/frontend"
 	"github.com/specterops/dawgs/cypher/models/cypher"
 	"github.com/specterops/dawgs/cypher/models/pgsql"
 	"github.com/specterops/dawgs/cypher/models/pgsql/translate"
 	"github.com/specterops/dawgs/cypher/models/walk"
+	"github.com/specterops/dawgs/graph"
 )
 
 func safeTranslate(model *cypher.RegularQuery, km pgsql.KindMapper, params map[string]any) (sql string, outParams map[string]any, err error, panicked any) {
@@ -140,9 +143,9 @@ var extraQueries = []string{
 var generatedNames = []string{"n0", "e0", "s0", "i0", "pi0", "path", "depth", "n1", "e1", "s1", "ep0", "ex0", "pc0", "root_id", "next_id", "satisfied", "is_cycle", "kind_ids", "properties", "id"}
 
 func TestVerifBoundedTranslate(t *testing.T) {
-	rotations := 3
+	rotations, boundN := 3, 3
 	if n, err := strconv.Atoi(os.Getenv("VERIF_BOUND")); err == nil && n > 0 {
-		rotations = min(n, len(generatedNames))
+		rotations, boundN = min(n, len(generatedNames)), n
 	}
 	only := os.Getenv("VERIF_PROPERTY") // "C05" / "C06": report that property's failures only
 	testCases, err := ReadTranslationTestCases()
@@ -362,10 +365,497 @@ func TestVerifBoundedTranslate(t *testing.T) {
 			fail("C06 'match (n) where n.name = $n return n': panic=%v err=%v", pan, terr)
 		}
 	}
-	res := map[string]any{"name": "translate", "bound": fmt.Sprintf("%d translation case queries x {repeat, 8 concurrent, %d renamings, parameter/variable collision} + %d parser fixture queries x {no panic, repeat, AST unchanged}", len(testCases), rotations+1, corpus), "cases": cases, "exhaustive": false, "failures": failures}
+	// ---- extension classes (see the comment block below the test) ----
+	x := &vxState{fail: fail, known: map[string]bool{}, hits: map[string]int{}, cases: &cases, km: km, bound: boundN, counts: map[string]int{}}
+	for _, name := range strings.Split(os.Getenv("VERIF_KNOWN"), "|") {
+		if name = strings.TrimSpace(name); name != "" {
+			x.known[name] = true
+		}
+	}
+	x.seed, _ = strconv.ParseInt(os.Getenv("VERIF_SEED"), 10, 64)
+	extBound := vxRunExtension(x)
+	res := map[string]any{"name": "translate", "bound": fmt.Sprintf("%d translation case queries x {repeat, 8 concurrent, %d renamings, parameter/variable collision} + %d parser fixture queries x {no panic, repeat, AST unchanged} + %s", len(testCases), rotations+1, corpus, extBound), "cases": cases, "exhaustive": false, "failures": failures, "known_deviation_hits": x.hits}
 	out, _ := json.Marshal(res)
 	fmt.Println("BOUNDED-RESULT " + strings.ReplaceAll(string(out), "\\n", " "))
 	if len(failures) > 0 {
 		t.Fail()
 	}
+}
+
+// =====================================================================================================================
+// Extension (input classes that were blind spots of the harness above)
+//
+//  1. param-*     (C05) parameter values of every Go type and boundary value, through the caller's parameter map and
+//                 through Parameter.Value of the AST, in comparison, IN, property-map and pattern-property positions:
+//                 a result or an error, never a panic or a hang; the caller's map and every nested map/slice in it
+//                 (up to the capacity of every slice, and the backing array of zero-length subslices) are unchanged;
+//                 repeating the call gives the same SQL and equal parameters.
+//  2. history-*   (C05) for every ordered pair (q1, q2) of a pool that mixes failing and succeeding queries and the
+//                 three formatting entry points (Translate+Translated, FromCypher keeping / stripping literals) the
+//                 output of q2 after q1 is byte-identical to the output of q2 run FIRST in a FRESH PROCESS (the
+//                 reference outputs come from child processes of this test binary, one per pool item); the same for
+//                 8 goroutines running the pool in different orders against ONE kind mapper and shared parameter maps.
+//  3. names-*     (C06) variables, aliases and UNWIND targets spelled with backticks (names with '$', names equal to a
+//                 parameter's name with and without '$', names equal to generated identifiers) and names that differ
+//                 only in letter case: the statement must equal, up to ONE consistent spelling of every user name,
+//                 the statement of the twin query with fresh harmless names.
+//  4. orderby-*   (C06) aliases reused as ORDER BY keys before and after WITH, equal to generated names.
+//
+// Known-deviation classes (env VERIF_KNOWN, "|"-separated) are counted under "known_deviation_hits" instead of
+// "failures"; nothing is suppressed in the code.
+// =====================================================================================================================
+
+const vxCallLimit = 30 * time.Second
+
+type vxState struct {
+	fail   func(format string, args ...any)
+	known  map[string]bool
+	hits   map[string]int
+	cases  *int
+	km     pgsql.KindMapper
+	bound  int
+	seed   int64
+	counts map[string]int
+}
+
+// deviation reports a violation of the oracle for an input of the named class.
+func (x *vxState) deviation(class, format string, args ...any) {
+	if x.known[class] {
+		x.hits[class]++
+		return
+	}
+	x.fail(format+" [class "+class+"]", args...)
+}
+
+func vxTimedTranslate(model *cypher.RegularQuery, km pgsql.KindMapper, params map[string]any) (sql string, out map[string]any, err error, pan any, hung bool) {
+	type result struct {
+		sql string
+		out map[string]any
+		err error
+		pan any
+	}
+	ch := make(chan result, 1)
+	go func() {
+		s, o, e, p := safeTranslate(model, km, params)
+		ch <- result{s, o, e, p}
+	}()
+	select {
+	case r := <-ch:
+		return r.sql, r.out, r.err, r.pan, false
+	case <-time.After(vxCallLimit):
+		return "", nil, nil, nil, true
+	}
+}
+
+// vxSame is reflect.DeepEqual with three differences: floating point numbers are compared by their bits (NaN equals
+// itself, 0 differs from -0), slices are compared up to their CAPACITY (an append into spare capacity is a change),
+// and functions / channels are compared by identity.
+func vxSame(a, b any) bool {
+	return vxSameValue(reflect.ValueOf(a), reflect.ValueOf(b), 0)
+}
+
+func vxSameValue(a, b reflect.Value, depth int) bool {
+	if a.IsValid() != b.IsValid() {
+		return false
+	}
+	if !a.IsValid() {
+		return true
+	}
+	if a.Type() != b.Type() {
+		return false
+	}
+	if depth > 200 {
+		return true // cyclic value: compared down to depth 200
+	}
+	switch a.Kind() {
+	case reflect.Bool:
+		return a.Bool() == b.Bool()
+	case reflect.Int, reflect.Int8, reflect.Int16, reflect.Int32, reflect.Int64:
+		return a.Int() == b.Int()
+	case reflect.Uint, reflect.Uint8, reflect.Uint16, reflect.Uint32, reflect.Uint64, reflect.Uintptr:
+		return a.Uint() == b.Uint()
+	case reflect.Float32, reflect.Float64:
+		return math.Float64bits(a.Float()) == math.Float64bits(b.Float())
+	case reflect.Complex64, reflect.Complex128:
+		ca, cb := a.Complex(), b.Complex()
+		return math.Float64bits(real(ca)) == math.Float64bits(real(cb)) && math.Float64bits(imag(ca)) == math.Float64bits(imag(cb))
+	case reflect.String:
+		return a.String() == b.String()
+	case reflect.Interface, reflect.Pointer:
+		if a.IsNil() || b.IsNil() {
+			return a.IsNil() == b.IsNil()
+		}
+		return vxSameValue(a.Elem(), b.Elem(), depth+1)
+	case reflect.Slice:
+		if a.IsNil() != b.IsNil() || a.Len() != b.Len() {
+			return false
+		}
+		n := min(a.Cap(), b.Cap())
+		if n > a.Len() {
+			a, b = a.Slice(0, n), b.Slice(0, n)
+		}
+		for i := 0; i < a.Len(); i++ {
+			if !vxSameValue(a.Index(i), b.Index(i), depth+1) {
+				return false
+			}
+		}
+		return true
+	case reflect.Array:
+		for i := 0; i < a.Len(); i++ {
+			if !vxSameValue(a.Index(i), b.Index(i), depth+1) {
+				return false
+			}
+		}
+		return true
+	case reflect.Map:
+		if a.IsNil() != b.IsNil() || a.Len() != b.Len() {
+			return false
+		}
+		iter := a.MapRange()
+		for iter.Next() {
+			other := b.MapIndex(iter.Key())
+			if !other.IsValid() || !vxSameValue(iter.Value(), other, depth+1) {
+				return false
+			}
+		}
+		return true
+	case reflect.Struct:
+		for i := 0; i < a.NumField(); i++ {
+			if !vxSameValue(a.Field(i), b.Field(i), depth+1) {
+				return false
+			}
+		}
+		return true
+	case reflect.Func, reflect.Chan, reflect.UnsafePointer:
+		return a.Pointer() == b.Pointer()
+	}
+	return false
+}
+
+// ---- class 1: parameter values ----
+
+type vxParamValue struct {
+	name string
+	// mk builds the value afresh on every call (the second call is the independent deep copy taken "before");
+	// witness is additional state that must not change either (the backing array of a zero-length subslice)
+	mk func() (val any, witness any)
+}
+
+var (
+	vxChan = make(chan int)
+	vxFunc = func() {}
+)
+
+func vxV(name string, f func() any) vxParamValue {
+	return vxParamValue{name: name, mk: func() (any, any) { return f(), nil }}
+}
+
+func vxParamValues() []vxParamValue {
+	vals := []vxParamValue{
+		// nil and scalars
+		vxV("nil", func() any { return nil }),
+		vxV(`""`, func() any { return "" }),
+		vxV(`"x"`, func() any { return "x" }),
+		vxV(`"it's"`, func() any { return "it's" }),
+		vxV(`"\x00"`, func() any { return "\x00" }),
+		vxV(`"$p"`, func() any { return "$p" }),
+		vxV("true", func() any { return true }),
+		vxV("false", func() any { return false }),
+		// numbers at the integer limits
+		vxV("int(0)", func() any { return int(0) }),
+		vxV("int(MaxInt)", func() any { return int(math.MaxInt) }),
+		vxV("int(MinInt)", func() any { return int(math.MinInt) }),
+		vxV("int64(MaxInt64)", func() any { return int64(math.MaxInt64) }),
+		vxV("int64(MinInt64)", func() any { return int64(math.MinInt64) }),
+		vxV("int32(MaxInt32)", func() any { return int32(math.MaxInt32) }),
+		vxV("int32(MinInt32)", func() any { return int32(math.MinInt32) }),
+		vxV("int16(MaxInt16)", func() any { return int16(math.MaxInt16) }),
+		vxV("int16(MinInt16)", func() any { return int16(math.MinInt16) }),
+		vxV("int8(MaxInt8)", func() any { return int8(math.MaxInt8) }),
+		vxV("int8(MinInt8)", func() any { return int8(math.MinInt8) }),
+		vxV("uint8(255)", func() any { return uint8(math.MaxUint8) }),
+		vxV("uint16(MaxUint16)", func() any { return uint16(math.MaxUint16) }),
+		vxV("uint32(MaxUint32)", func() any { return uint32(math.MaxUint32) }),
+		vxV("uint64(MaxUint64)", func() any { return uint64(math.MaxUint64) }),
+		vxV("uint(MaxUint)", func() any { return uint(math.MaxUint) }),
+		vxV("uintptr(0)", func() any { return uintptr(0) }),
+		vxV("graph.ID(0)", func() any { return graph.ID(0) }),
+		vxV("graph.ID(MaxUint64)", func() any { return graph.ID(math.MaxUint64) }),
+		// floats
+		vxV("NaN", func() any { return math.NaN() }),
+		vxV("+Inf", func() any { return math.Inf(1) }),
+		vxV("-Inf", func() any { return math.Inf(-1) }),
+		vxV("-0.0", func() any { return math.Copysign(0, -1) }),
+		vxV("MaxFloat64", func() any { return math.MaxFloat64 }),
+		vxV("SmallestNonzeroFloat64", func() any { return math.SmallestNonzeroFloat64 }),
+		vxV("float32(NaN)", func() any { return float32(math.NaN()) }),
+		vxV("float32(+Inf)", func() any { return float32(math.Inf(1)) }),
+		vxV("float32(MaxFloat32)", func() any { return float32(math.MaxFloat32) }),
+		vxV("complex128", func() any { return complex(math.NaN(), 1) }),
+		// empty non-nil slices of every element type
+		vxV("[]any{}", func() any { return []any{} }),
+		vxV("[]string{}", func() any { return []string{} }),
+		vxV("[]int{}", func() any { return []int{} }),
+		vxV("[]int8{}", func() any { return []int8{} }),
+		vxV("[]int16{}", func() any { return []int16{} }),
+		vxV("[]int32{}", func() any { return []int32{} }),
+		vxV("[]int64{}", func() any { return []int64{} }),
+		vxV("[]uint{}", func() any { return []uint{} }),
+		vxV("[]uint8{}", func() any { return []uint8{} }),
+		vxV("[]uint16{}", func() any { return []uint16{} }),
+		vxV("[]uint32{}", func() any { return []uint32{} }),
+		vxV("[]uint64{}", func() any { return []uint64{} }),
+		vxV("[]float32{}", func() any { return []float32{} }),
+		vxV("[]float64{}", func() any { return []float64{} }),
+		vxV("[]bool{}", func() any { return []bool{} }),
+		vxV("[]graph.ID{}", func() any { return []graph.ID{} }),
+		vxV("graph.Kinds{}", func() any { return graph.Kinds{} }),
+		vxV("[]map[string]any{}", func() any { return []map[string]any{} }),
+		vxV("[][]any{}", func() any { return [][]any{} }),
+		vxV("[][]string{}", func() any { return [][]string{} }),
+		vxV("[]time.Time{}", func() any { return []time.Time{} }),
+		vxV("make([]string,0,4)", func() any { return make([]string, 0, 4) }),
+		vxV("make([]any,0,4)", func() any { return make([]any, 0, 4) }),
+		// nil slices
+		vxV("[]any(nil)", func() any { return []any(nil) }),
+		vxV("[]string(nil)", func() any { return []string(nil) }),
+		vxV("[]int64(nil)", func() any { return []int64(nil) }),
+		vxV("graph.Kinds(nil)", func() any { return graph.Kinds(nil) }),
+		vxV("[]byte(nil)", func() any { return []byte(nil) }),
+		// non-empty slices, homogeneous and not
+		vxV(`[]string{"a",""}`, func() any { return []string{"a", ""} }),
+		vxV("[]int64{Min,Max}", func() any { return []int64{math.MinInt64, math.MaxInt64} }),
+		vxV("[]uint64{Max}", func() any { return []uint64{math.MaxUint64} }),
+		vxV("[]float64{NaN,Inf}", func() any { return []float64{math.NaN(), math.Inf(1)} }),
+		vxV("[]graph.ID{Max}", func() any { return []graph.ID{graph.ID(math.MaxUint64)} }),
+		vxV(`[]any{"a","b"}`, func() any { return []any{"a", "b"} }),
+		vxV(`[]any{int64(1),"a"}`, func() any { return []any{int64(1), "a"} }),
+		vxV("[]any{nil}", func() any { return []any{nil} }),
+		vxV(`[]any{nil,"a"}`, func() any { return []any{nil, "a"} }),
+		vxV(`[]any{"a",nil}`, func() any { return []any{"a", nil} }),
+		vxV("[]any{NaN}", func() any { return []any{math.NaN()} }),
+		vxV("[]any{chan}", func() any { return []any{vxChan} }),
+		// nested empty slices
+		vxV("[]any{[]any{}}", func() any { return []any{[]any{}} }),
+		vxV("[]any{[]any{},[]any{}}", func() any { return []any{[]any{}, []any{}} }),
+		vxV("[]any{[]string{}}", func() any { return []any{[]string{}} }),
+		vxV("[]any{[]any{[]any{}}}", func() any { return []any{[]any{[]any{}}} }),
+		vxV("[][]any{{}}", func() any { return [][]any{{}} }),
+		vxV("[][]string{{},nil}", func() any { return [][]string{{}, nil} }),
+		vxV("[]any{[]any(nil)}", func() any { return []any{[]any(nil)} }),
+		vxV("[]any{map[string]any{}}", func() any { return []any{map[string]any{}} }),
+		vxV("[]map[string]any{nil,{}}", func() any { return []map[string]any{nil, {}} }),
+		// maps
+		vxV("map[string]any{}", func() any { return map[string]any{} }),
+		vxV("map[string]any(nil)", func() any { return map[string]any(nil) }),
+		vxV(`map[string]any{"a":nil}`, func() any { return map[string]any{"a": nil} }),
+		vxV(`map[string]any{"a":map[string]any{}}`, func() any { return map[string]any{"a": map[string]any{}} }),
+		vxV(`map[string]any{"a":map[string]any{"b":nil}}`, func() any { return map[string]any{"a": map[string]any{"b": nil}} }),
+		vxV(`map[string]any{"a":[]any{}}`, func() any { return map[string]any{"a": []any{}} }),
+		vxV(`map[string]any{"a":[]any{nil}}`, func() any { return map[string]any{"a": []any{nil}} }),
+		vxV(`map[string]any{"a":[]any(nil)}`, func() any { return map[string]any{"a": []any(nil)} }),
+		vxV(`map[string]any{"a":[]string(nil)}`, func() any { return map[string]any{"a": []string(nil)} }),
+		vxV(`map[string]any{"a":map[string]any{"b":[]string(nil)}}`, func() any { return map[string]any{"a": map[string]any{"b": []string(nil)}} }),
+		vxV(`map[string]any{"":""}`, func() any { return map[string]any{"": ""} }),
+		vxV(`map[string]any{"a":NaN}`, func() any { return map[string]any{"a": math.NaN()} }),
+		vxV(`map[string]any{"a":+Inf}`, func() any { return map[string]any{"a": math.Inf(1)} }),
+		vxV(`map[string]any{"a":MaxUint64}`, func() any { return map[string]any{"a": uint64(math.MaxUint64)} }),
+		vxV(`map[string]any{"a":chan}`, func() any { return map[string]any{"a": vxChan} }),
+		vxV(`map[string]any{"a":1,"b":"x","c":[]string{"y"}}`, func() any { return map[string]any{"a": 1, "b": "x", "c": []string{"y"}} }),
+		vxV("map[string]string{}", func() any { return map[string]string{} }),
+		vxV(`map[string]string{"a":"b"}`, func() any { return map[string]string{"a": "b"} }),
+		vxV("map[int]any{}", func() any { return map[int]any{} }),
+		vxV("map[any]any{}", func() any { return map[any]any{} }),
+		vxV("map[string][]any{nil}", func() any { return map[string][]any{"a": nil} }),
+		// types of the graph and cypher packages
+		vxV("(*graph.Properties)(nil)", func() any { return (*graph.Properties)(nil) }),
+		vxV("graph.NewProperties()", func() any { return graph.NewProperties() }),
+		vxV("&graph.Properties{}", func() any { return &graph.Properties{} }),
+		vxV(`&graph.Properties{Map:{"a":[]string(nil)}}`, func() any { return &graph.Properties{Map: map[string]any{"a": []string(nil)}} }),
+		vxV("graph.StringKind(NodeKind1)", func() any { return graph.StringKind("NodeKind1") }),
+		vxV("graph.StringKind(unknown)", func() any { return graph.StringKind("VxUnknownKind") }),
+		vxV("graph.Kinds{NodeKind1}", func() any { return graph.Kinds{graph.StringKind("NodeKind1")} }),
+		vxV("graph.Kinds{nil}", func() any { return graph.Kinds{nil} }),
+		vxV("cypher.MapLiteral{}", func() any { return cypher.MapLiteral{} }),
+		vxV("cypher.MapLiteral(nil)", func() any { return cypher.MapLiteral(nil) }),
+		vxV("(*cypher.ListLiteral)(nil)", func() any { return (*cypher.ListLiteral)(nil) }),
+		vxV("cypher.NewListLiteral()", func() any { return cypher.NewListLiteral() }),
+		vxV("(*cypher.Literal)(nil)", func() any { return (*cypher.Literal)(nil) }),
+		vxV("cypher.NewLiteral(nil,true)", func() any { return cypher.NewLiteral(nil, true) }),
+		vxV("(*cypher.Parameter)(nil)", func() any { return (*cypher.Parameter)(nil) }),
+		// time
+		vxV("time.Time{}", func() any { return time.Time{} }),
+		vxV("time.Unix(0,0).UTC()", func() any { return time.Unix(0, 0).UTC() }),
+		vxV("time.Duration(0)", func() any { return time.Duration(0) }),
+		vxV("time.Duration(MinInt64)", func() any { return time.Duration(math.MinInt64) }),
+		// everything else
+		vxV("struct{}{}", func() any { return struct{}{} }),
+		vxV("(*int)(nil)", func() any { return (*int)(nil) }),
+		vxV("new(int)", func() any { return new(int) }),
+		vxV("(*string)(nil)", func() any { return (*string)(nil) }),
+		vxV("[]byte{}", func() any { return []byte{} }),
+		vxV("json.Number", func() any { return json.Number("1e400") }),
+		vxV("[0]int{}", func() any { return [0]int{} }),
+		vxV("[2]string{}", func() any { return [2]string{} }),
+		vxV("func", func() any { return vxFunc }),
+		vxV("chan", func() any { return vxChan }),
+		vxV("error", func() any { return fmt.Errorf("an error value") }),
+		vxV("[]error{}", func() any { return []error{} }),
+		vxV("rune", func() any { return 'x' }),
+	}
+	// zero-length subslices of non-empty arrays: the backing array is the witness
+	sub := func(name string, mk func() (any, any)) { vals = append(vals, vxParamValue{name: name, mk: mk}) }
+	sub(`[]string{"a","b","c"}[:0]`, func() (any, any) { b := []string{"a", "b", "c"}; return b[:0], b })
+	sub(`[]string{"a","b","c"}[1:1]`, func() (any, any) { b := []string{"a", "b", "c"}; return b[1:1], b })
+	sub(`[]string{"a","b","c"}[3:]`, func() (any, any) { b := []string{"a", "b", "c"}; return b[3:], b })
+	sub(`[]string{"a","b","c"}[1:1:1]`, func() (any, any) { b := []string{"a", "b", "c"}; return b[1:1:1], b })
+	sub("[]int64{1,2,3}[:0]", func() (any, any) { b := []int64{1, 2, 3}; return b[:0], b })
+	sub("[]int64{1,2,3}[2:2]", func() (any, any) { b := []int64{1, 2, 3}; return b[2:2], b })
+	sub("[]int{1,2,3}[:0]", func() (any, any) { b := []int{1, 2, 3}; return b[:0], b })
+	sub("[]float64{1,2,3}[1:1]", func() (any, any) { b := []float64{1, 2, 3}; return b[1:1], b })
+	sub(`[]any{"a","b","c"}[:0]`, func() (any, any) { b := []any{"a", "b", "c"}; return b[:0], b })
+	sub(`[]any{"a","b","c"}[1:1]`, func() (any, any) { b := []any{"a", "b", "c"}; return b[1:1], b })
+	sub(`[]any{[]any{"a"}[:0]}`, func() (any, any) { b := []any{"a"}; return []any{b[:0]}, b })
+	sub(`map[string]any{"a":[]string{"a","b"}[:0]}`, func() (any, any) { b := []string{"a", "b"}; return map[string]any{"a": b[:0]}, b })
+	sub(`(&[3]string{"a","b","c"})[:0]`, func() (any, any) { b := &[3]string{"a", "b", "c"}; return b[:0], b })
+	sub(`(&[3]string{"a","b","c"})[1:1]`, func() (any, any) { b := &[3]string{"a", "b", "c"}; return b[1:1], b })
+	sub("graph.Kinds{K1,K2}[:0]", func() (any, any) {
+		b := graph.Kinds{graph.StringKind("NodeKind1"), graph.StringKind("NodeKind2")}
+		return b[:0], b
+	})
+	// a map that contains itself
+	vals = append(vals, vxV("cyclic map", func() any { m := map[string]any{"a": 1}; m["self"] = m; return m }))
+	vals = append(vals, vxV("cyclic slice", func() any { s := make([]any, 1); s[0] = s; return s }))
+	return vals
+}
+
+// positions of $p (and $q) per class of position
+var vxParamPositions = []struct{ position, query string }{
+	{"comparison", "match (n) where n.name = $p return n"},
+	{"comparison", "match (n) where $p = n.name return n"},
+	{"comparison", "match (n) where n.value > $p return n"},
+	{"comparison", "match (n) where n.value <> $p and not n.other <= $p return n"},
+	{"comparison", "match (n) where id(n) = $p return n"},
+	{"comparison", "match (n) where n.name starts with $p or n.name contains $p or n.name ends with $p return n"},
+	{"comparison", "match (n)-[r]->(m) where type(r) = $p and n.name = $q return m"},
+	{"comparison", "match (n) where $p is null or $p = $q return n"},
+	{"comparison", "match (n) where n.value = $p + 1 return n.value - $p"},
+	{"comparison", "match (n) return n, $p as v order by v skip 1 limit 2"},
+	{"in", "match (n) where n.name in $p return n"},
+	{"in", "match (n) where id(n) in $p return n"},
+	{"in", "match (n) where not n.name in $p and n.other in $q return n"},
+	{"in", "match (n) where $p in n.list return n"},
+	{"in", "match (n)-[r]->(m) where type(r) in $p return r"},
+	{"in", "match (n) where any(x in $p where x = n.name) return n"},
+	{"in", "match (n) where size($p) > 0 and n.name in $p + ['z'] return n"},
+	{"in", "unwind $p as x return x"},
+	{"in", "unwind $p as x match (n) where id(n) = x return n"},
+	{"in", "match (n) where n:NodeKind1 and n.name in $p with collect(n) as l match (m) where m in l return m"},
+	{"property-map", "match (n) where n.props = {k: $p} return n"},
+	{"property-map", "match (n) where n.props = {k: $p, j: {i: $p}, h: [$p]} return n"},
+	{"property-map", "match (n) return {k: $p} as m"},
+	{"property-map", "match (n) set n.k = $p return n"},
+	{"property-map", "match (n) set n += {k: $p} return n"},
+	{"property-map", "match (n) set n = $p return n"},
+	{"property-map", "create (n:NodeKind1 {k: $p}) return n"},
+	{"property-map", "match (a), (b) create (a)-[r:EdgeKind1 {k: $p}]->(b) return r"},
+	{"pattern-property", "match (n {k: $p}) return n"},
+	{"pattern-property", "match (n:NodeKind1 {k: $p, j: 1}) return n"},
+	{"pattern-property", "match ()-[r {k: $p}]->() return r"},
+	{"pattern-property", "match (n {k: $p})-[r:EdgeKind1 {j: $p}]->(m {i: $q}) return n, r, m"},
+	{"pattern-property", "match p = (n {k: $p})-[*1..2]->(m {k: $p}) return p"},
+	{"pattern-property", "match p = (n:NodeKind1)-[:EdgeKind1*1..]->(m:NodeKind2) where n.name = $p and m.name in $p return p"},
+	{"pattern-property", "match p = shortestPath((n {k: $p})-[*1..]->(m)) where m.name = $p return p"},
+	{"pattern-property", "match p = allShortestPaths((n:NodeKind1 {k: $p})-[:EdgeKind1*1..]->(m:NodeKind2 {k: $q})) return p"},
+	{"pattern-property", "match (n $p) return n"},
+	{"pattern-property", "match (n) where (n)-[:EdgeKind1]->({k: $p}) return n"},
+	{"pattern-property", "match (n:NodeKind1) match (n)-[:EdgeKind1*1..]->(m:NodeKind2 {k: $p}) with n, count(m) as c return n, c order by c desc limit 5"},
+}
+
+func vxSetParameterValues(model *cypher.RegularQuery, values map[string]any) {
+	_ = walk.Cypher(model, walk.NewSimpleVisitor[cypher.SyntaxNode](func(node cypher.SyntaxNode, _ walk.VisitorHandler) {
+		if p, ok := node.(*cypher.Parameter); ok {
+			if v, has := values[p.Symbol]; has {
+				p.Value = v
+			}
+		}
+	}))
+}
+
+func vxParamClass(x *vxState) (queries, values int) {
+	vals := vxParamValues()
+	for _, pos := range vxParamPositions {
+		if m, err := frontend.ParseCypher(frontend.NewContext(), pos.query); err != nil || m == nil {
+			x.fail("C05 parameter position query does not parse: %q: %v", pos.query, err)
+			continue
+		}
+		queries++
+		for _, pv := range vals {
+			*x.cases += 2
+			what := fmt.Sprintf("%q with $p = %s (%s position)", pos.query, pv.name, pos.position)
+			// (a) through the caller's parameter map
+			model, _ := frontend.ParseCypher(frontend.NewContext(), pos.query)
+			before := cypher.Copy(model)
+			val, wit := pv.mk()
+			refVal, refWit := pv.mk()
+			params := map[string]any{"p": val, "q": "other", "zz_unused": val}
+			ref := map[string]any{"p": refVal, "q": "other", "zz_unused": refVal}
+			if !vxSame(params, ref) || !vxSame(wit, refWit) {
+				x.fail("harness: value constructor %s is not reproducible", pv.name)
+				continue
+			}
+			sql1, out1, err1, pan, hung := vxTimedTranslate(model, x.km, params)
+			if hung {
+				x.deviation("param-hang", "C05 translation did not return within %v for %s", vxCallLimit, what)
+				continue
+			}
+			if pan != nil {
+				x.deviation("param-panic", "C05 panic translating %s (value in the parameter map): %v", what, pan)
+			} else {
+				if !vxSame(params, ref) || !vxSame(wit, refWit) {
+					x.deviation("param-mutated", "C05 translation changed the caller's parameter map (or a map/slice nested in it) for %s: before %#v, after %#v", what, ref["p"], params["p"])
+				}
+				if !reflect.DeepEqual(before, model) {
+					x.deviation("param-mutated", "C05 translation changed the caller's AST for %s", what)
+				}
+				sql2, out2, err2, pan2, hung2 := vxTimedTranslate(model, x.km, params)
+				if hung2 || pan2 != nil || (err1 == nil) != (err2 == nil) || sql1 != sql2 || !vxSame(out1, out2) {
+					x.deviation("param-nondeterministic", "C05 repeated translation differs for %s: err %v / %v, panic %v", what, err1, err2, pan2)
+				}
+			}
+			// (b) through Parameter.Value of the AST
+			model, _ = frontend.ParseCypher(frontend.NewContext(), pos.query)
+			refModel, _ := frontend.ParseCypher(frontend.NewContext(), pos.query)
+			val, wit = pv.mk()
+			refVal, refWit = pv.mk()
+			vxSetParameterValues(model, map[string]any{"p": val, "q": "other"})
+			vxSetParameterValues(refModel, map[string]any{"p": refVal, "q": "other"})
+			if !vxSame(model, refModel) {
+				x.fail("harness: two parses of %q differ", pos.query)
+				continue
+			}
+			sql1, out1, err1, pan, hung = vxTimedTranslate(model, x.km, nil)
+			if hung {
+				x.deviation("param-hang", "C05 translation did not return within %v for %s (value in the AST)", vxCallLimit, what)
+				continue
+			}
+			if pan != nil {
+				x.deviation("param-panic", "C05 panic translating %s (value in Parameter.Value of the AST): %v", what, pan)
+				continue
+			}
+			if !vxSame(model, refModel) || !vxSame(wit, refWit) {
+				x.deviation("param-mutated", "C05 translation changed the caller's AST (Parameter.Value or a map/slice nested in it) for %s", what)
+			}
+			sql2, out2, err2, pan2, hung2 := vxTimedTranslate(model, x.km, nil)
+			if hung2 || pan2 != nil || (err1 == nil) != (err2 == nil) || sql1 != sql2 || !vxSame(out1, out2) {
+				x.deviation("param-nondeterministic", "C05 repeated translation differs for %s (value in the AST): err %v / %v, panic %v", what, err1, err2, pan2)
+			}
+		}
+	}
+	return queries, len(vals)
+}
+
+func vxRunExtension(x *vxState) string {
+	pq, pv := vxParamClass(x)
+	return fmt.Sprintf("%d parameter positions x %d parameter values x {parameter map, Parameter.Value} x {no panic/hang, nothing nested changed, repeat}", pq, pv)
 }
